@@ -342,7 +342,12 @@ func genMsg(r *Rng, deficient bool) *gmsg {
 	bmEnc := Pick(r, []string{"Binary", "Hex"})
 	bmPref := Pick(r, prefFamilies) + ".Fixed"
 	mtiEnc := Pick(r, []string{"ASCII", "EBCDIC", "BCD", "EBCDIC1047", "LBCD"})
-	mti := L(A("P"), A(Pick(r, []string{"String", "Numeric"})), A(mtiEnc), A(Pick(r, prefFamilies)+".Fixed"), I(4), A("L"), X([]byte{'0'}), A("D"))
+	mtiKind := Pick(r, []string{"String", "Numeric"})
+	mtiPad := "N"
+	if mtiKind == "Numeric" {
+		mtiPad = "L"
+	}
+	mti := L(A("P"), A(mtiKind), A(mtiEnc), A(Pick(r, prefFamilies)+".Fixed"), I(4), A(mtiPad), X([]byte{'0'}), A("D"))
 	maxID := 8 * g.B
 	if g.auto {
 		maxID = 8 * g.B * 3
